@@ -11,7 +11,7 @@ T = {"write", "enable", "disable", "loop", "script", "tmo"}
 def run(tier, seed):
     q = tier == "quick"
     inv = ["TypeOK", "TimeoutOnlyIfDue", "TimerIff", "TimerNotLate"]
-    K = lambda tag, acts, **kw: bc.consts("pair", acts, 6, sizes=(1, 3), drains=(0, 99), script_until=1, wms=((0, 0),),
+    K = lambda tag, acts, **kw: bc.consts("pair", acts, 3, sizes=(1,), drains=(0,), script_until=0, wms=((0, 0),),
                                           durs=(0, 2), allow=(tag,), **kw)
     plan = {
         "mc": [("C20_mc_pair", bc.consts("pair", T, 4 if q else 5, sizes=(1,), drains=(0, 99), wms=((0, 0),), durs=(0, 1, 2),
@@ -19,9 +19,20 @@ def run(tier, seed):
         "gen": [
             dict(name="C20_pair_exh", consts=bc.consts("pair", {"write", "enable", "disable", "loop", "tmo", "tmor"}, 3 if q else 4,
                                                        sizes=(1,), drains=(0,), wms=((0, 0),), durs=(0, 2)), ticks=(1000,)),
-            dict(name="C20_pair_rand", consts=bc.consts("pair", T | {"wmr"}, 10 if q else 14, sizes=(1, 2), drains=(0, 99),
-                                                        wms=((0, 0), (0, 2)), durs=(0, 1, 2, 3), script_until=1),
-                 simulate=30 if q else 500, ticks=(1000,) if q else (1000, 1000000000)),
+            # every 4 (5)-step history of: writer writes / reader sets a read timeout, enables, loops with time passing
+            dict(name="C20_pair_exh5", consts=bc.consts("pair", {"write", "enable", "loop", "tmo", "tmor"}, 4 if q else 5, sizes=(1,),
+                                                        drains=(0,), wms=((0, 0),), durs=(0, 1, 2), oneway=True, script_until=0, tend=1),
+                 ticks=(1000,)),
+            # read timeouts with data flowing (write timeouts on pairs: see the known finding and C20_pair_wt)
+            dict(name="C20_pair_rand", consts=bc.consts("pair", {"write", "enable", "loop", "script", "tmo", "tmor"}, 9 if q else 13,
+                                                        sizes=(1, 2), drains=(0, 99), wms=((0, 0),), durs=(0, 1, 2, 3), script_until=1),
+                 simulate=40 if q else 500, ticks=(1000,) if q else (1000, 1000000000)),
+            dict(name="C20_pair_rw", consts=bc.consts("pair", T | {"wmr", "tmor"}, 10 if q else 14, sizes=(1, 2), drains=(0, 99),
+                                                      wms=((0, 0), (0, 2)), durs=(0, 1, 2, 3), script_until=1),
+                 simulate=15 if q else 300),
+            dict(name="C20_pair_wt", consts=bc.consts("pair", {"write", "enable", "disable", "loop", "tmo", "tmow"}, 7 if q else 9,
+                                                      sizes=(1,), drains=(0,), wms=((0, 0),), durs=(0, 1, 2, 3), script_until=0),
+                 simulate=15 if q else 300),
             dict(name="C20_sock_imm", consts=bc.consts("sock", T | {"shut"}, 10 if q else 14, sizes=(1, 2), drains=(0, 99), wms=((0, 0),),
                                                        durs=(0, 1, 2, 3), script_until=1),
                  simulate=30 if q else 400, ticks=(1000,) if q else (1000, 1000000)),
@@ -30,10 +41,17 @@ def run(tier, seed):
             dict(name="C20_filt_read", consts=bc.consts("filt", T | {"tmor"}, 9 if q else 12, sizes=(1, 2), drains=(0, 99), wms=((0, 0),),
                                                         durs=(0, 1, 2, 3), script_until=1, filtfn="id"), simulate=15 if q else 300),
         ],
-        "known": [dict(name="C20_known_rt", key="pair-read-timeout-while-disabled", simulate=80,
-                       consts=K("pair_rt_rearm", {"write", "enable", "disable", "loop", "tmo", "tmor", "flush"})),
-                  dict(name="C20_known_wt", key="pair-write-timeout-wrong-endpoint", simulate=60,
-                       consts=K("pair_wt_endpoint", {"write", "enable", "disable", "loop", "tmo", "tmow"}))],
+        "known": [dict(name="C20_known_rt", key="pair-read-timeout-while-disabled",
+                       consts=K("pair_rt_rearm", {"write", "tmo", "tmor", "flush"})),
+                  dict(name="C20_known_wt", key="pair-write-timeout-wrong-endpoint",
+                       consts=K("pair_wt_endpoint", {"write", "enable", "tmo", "tmow"}))],
+        "known_fixed": [dict(name="C20_known_stale", key="sock-stale-io-timeout",
+                             consts=bc.consts("sock", T, 8),
+                             ops=[{"a": "tmo", "e": 1, "tr": 2, "tw": 0}, {"a": "enable", "e": 1, "m": 2},
+                                  {"a": "disable", "e": 1, "m": 2}, {"a": "tmo", "e": 1, "tr": 0, "tw": 0},
+                                  {"a": "enable", "e": 1, "m": 2}, {"a": "write", "e": 2, "n": 1},
+                                  {"a": "loop", "e": 2, "t": 0}, {"a": "loop", "e": 1, "t": 0},
+                                  {"a": "loop", "e": 1, "t": 5}, {"a": "loop", "e": 1, "t": 5}])],
         "monitor_by_kind": {k: bc.mon_c20(k) for k in ("pair", "filt", "sock")},
         "need": ["tmo", "cb:e:f65", "cb:e:f66", "enable", "disable"],
         "rule": "TLC enumerates (pair_exh) or simulates histories of the Bev specification with read/write timeouts, "
